@@ -171,6 +171,8 @@ pub fn relational_cfgs() -> Vec<Cfg> {
             padding: 0,
         });
     }
+    v.push(Cfg::Sdes { chunks: vec![Chunk { ssrc: 7, items: vec![it(8, b"ex", "a"), it(2, &[], "name"), it(8, b"ex", "b")] }], padding: 0 });
+    v.push(Cfg::Sdes { chunks: vec![Chunk { ssrc: 7, items: vec![it(1, &[], "one"), it(1, &[], "two"), it(1, &[], "one")] }], padding: 4 });
     // a non-PRIV item that carries a (documented to be ignored) prefix
     v.push(Cfg::Sdes { chunks: vec![Chunk { ssrc: 1, items: vec![it(1, b"pfx", "cname"), it(2, b"\0", "")] }], padding: 4 });
     // PRIV items at the edges of the (prefix, value) triangle
